@@ -706,6 +706,10 @@ def _dedup(xs):
 AXES = ('globals', 'cols', 'rows', 'entries')
 
 
+class IllTypedIR(Exception):
+    """the engine's typing rule for an emitted node fails (a fatal struct concatenation)"""
+
+
 def py_matrix_ops(m, texts):
     """documented type contract of the MatrixTable calls on the op texts; m = dict(globals, cols, rows, entries: [(name, type text)],
     ck, rk: [names]); -> m or None when a call must be refused"""
@@ -805,9 +809,18 @@ def py_matrix(view, left, right=None, post=None):
         vf = lambda x: [(n, t) for n, t in x['rows'] if n not in x['rk']]
         if m['entries'] != r['entries'] or m['cols'] != r['cols'] or m['ck'] != r['ck'] or kt(m) != kt(r):
             return None
-        if any(n in dict(vf(m)) or n in m['rk'] for n, _ in vf(r)):
-            return None
-        m = dict(m, rows=[(k, dict(m['rows'])[k]) for k in m['rk']] + vf(m) + vf(r))
+        # contract ("union_cols: renamed the following fields on the right to avoid name conflicts"): a right row field whose name is a
+        # field name of the left dataset becomes name_1, name_2, …
+        used = {n for a in ('globals', 'cols', 'rows', 'entries') for n, _ in m[a]}
+        renamed = []
+        for n, t in vf(r):
+            k, i = n, 0
+            while k in used:
+                i += 1
+                k = f'{n}_{i}'
+            used.add(k)
+            renamed.append((k, t))
+        m = dict(m, rows=[(k, dict(m['rows'])[k]) for k in m['rk']] + vf(m) + renamed)
         m = py_matrix_ops(m, post or [])
         if m is None:
             return None
@@ -872,10 +885,21 @@ def py_join(left_texts, right_texts):
     (gl, rl, kl), (gr, rr, kr) = _parse_tt(a), _parse_tt(b)
     if [dict(rl)[k] for k in kl] != [dict(rr)[k] for k in kr]:
         return None
-    new = [n for n, _ in rr if n not in kr] + [n for n, _ in gr]
-    if any(n in dict(rl) or n in dict(gl) for n in new):
-        return None
-    return _show_tt(gl + gr, [(k, dict(rl)[k]) for k in kl] + [(n, t) for n, t in rl if n not in kl] + [(n, t) for n, t in rr if n not in kr], kl)
+    # contract ("Table.join: renamed the following fields on the right to avoid name conflicts"): a right field whose name clashes
+    # with a field of the left table becomes name_1, name_2, …;
+    # that covers row fields and globals alike (one namespace); the right KEY fields do not appear in the result
+    used = {n for n, _ in rl} | {n for n, _ in gl}
+
+    def fresh(n):
+        m, i = n, 0
+        while m in used:
+            i += 1
+            m = f'{n}_{i}'
+        used.add(m)
+        return m
+    vals = [(fresh(n), t) for n, t in rr if n not in kr]
+    globs = [(fresh(n), t) for n, t in gr]
+    return _show_tt(gl + globs, [(k, dict(rl)[k]) for k in kl] + [(n, t) for n, t in rl if n not in kl] + vals, kl)
 
 
 def py_table(texts):
@@ -991,7 +1015,7 @@ class C36(Prop):
 'annotate_globals, select, drop, key_by, filter, order_by, rename, explode) from range_table; tunion (10%) = t0.union(t1, … '
             'unify=False/True) of 2-4 such pipelines (fields present / absent / of different numeric types / reordered / key field moved '
             'inside the row / clashing / keys differing), checked against the TableUnion rule that all children carry the result\'s row '
-'type and key; tjoin (3%) = l.join(r); matrix (12%) = MatrixTable pipelines from range_matrix_table (annotate / select '
+'type and key; tjoin (4%) = l.join(r), most with deliberate name clashes between the two tables (row/row, global/global, global/row, key names) and globals on both sides; matrix (12%) = MatrixTable pipelines from range_matrix_table (annotate / select '
             'rows / cols / entries / globals, drop, key_cols_by incl. the empty key, key_rows_by, filter_*, union_cols) seen as a matrix '
             'table or through rows() / cols() / entries(), the IR-implied type being the engine\'s typing rules of the Matrix* nodes.  non-trivial = the front end '
             'accepted the program / produced a type; distinct by full case')
@@ -1259,6 +1283,15 @@ class C36(Prop):
             c0 = u.children[0].typ
             if any(c.typ.row_type != c0.row_type or list(c.typ.row_key) != list(c0.row_key) for c in u.children[1:]):
                 return 'ill-typed'
+        # the engine's rule for TableJoin (TableIR.scala: left.globalType ++ right.globalType, leftKey ++ leftValue ++ rightValue; TStruct.++
+        # is fatal on a duplicate field name) — the Python `_compute_type` merges equal names silently with a dict update
+        for j in tir.base_search(lambda x: isinstance(x, ir.TableJoin)):
+            lt, rt = j.left.typ, j.right.typ
+            if set(lt.global_type) & set(rt.global_type):
+                return 'ill-typed'
+            rkey = list(rt.row_key)[:j.join_key]
+            if set(lt.row_type) & {f for f in rt.row_type if f not in rkey}:
+                return 'ill-typed'
         tt = tir.typ
         return self.tt_line(tt.global_type, tt.row_type, tt.row_key)
 
@@ -1356,11 +1389,23 @@ class C36(Prop):
             return dict(self.implied_mtype(mir.child), rk=list(mir.keys))
         if isinstance(mir, (M.MatrixFilterRows, M.MatrixFilterCols, M.MatrixFilterEntries)):
             return self.implied_mtype(mir.child)
+        if isinstance(mir, M.MatrixRename):
+            # MatrixRename.typ (MatrixIR.scala): every struct renamed field by field, keys renamed with the col / row maps
+            ch = self.implied_mtype(mir.child)
+            ren = lambda t, m: hl.tstruct(**{m.get(n, n): ft for n, ft in t.items()})
+            out = dict(g=ren(ch['g'], mir.global_map), c=ren(ch['c'], mir.col_map), ck=[mir.col_map.get(k, k) for k in ch['ck']],
+                       r=ren(ch['r'], mir.row_map), rk=[mir.row_map.get(k, k) for k in ch['rk']], e=ren(ch['e'], mir.entry_map))
+            if any(len(out[a]) != len(ch[a]) for a in 'gcre'):
+                raise IllTypedIR('MatrixRename: two fields renamed to one name')
+            return out
         if isinstance(mir, M.MatrixUnionCols):
             l, r = self.implied_mtype(mir.left), self.implied_mtype(mir.right)
             lk = [(k, l['r'][k]) for k in l['rk']]
             lv = [(n, t) for n, t in l['r'].items() if n not in l['rk']]
             rv = [(n, t) for n, t in r['r'].items() if n not in r['rk']]
+            dup = sorted({n for n, _ in lk + lv} & {n for n, _ in rv})
+            if dup:      # the engine's struct concatenation is fatal on a duplicate field name
+                raise IllTypedIR(f'MatrixUnionCols: right row value fields {dup} are also row fields of the left child')
             return dict(l, r=hl.tstruct(**dict(lk + lv + rv)))
         raise KeyError(f'matrix node {type(mir).__name__} is outside the transcribed rules')
 
@@ -1378,6 +1423,8 @@ class C36(Prop):
                       f'r={t["r"]._parsable_string()} rk={",".join(t["rk"])} e={t["e"]._parsable_string()}')
             except AssertionError as ex:
                 it = f'deep-typecheck-assertion {str(ex)[:120]}'
+            except IllTypedIR:
+                it = 'ill-typed'
             return fe, it
         fe = self.tt_line(x.globals.dtype, x.row.dtype, list(x.key))
         try:
@@ -1392,6 +1439,8 @@ class C36(Prop):
                                   t['rk'] + t['ck'])
         except AssertionError as ex:
             it = f'deep-typecheck-assertion {str(ex)[:120]}'
+        except IllTypedIR:
+            it = 'ill-typed'
         return fe, it
 
     def run_matrix(self, c):
@@ -1437,7 +1486,11 @@ class C36(Prop):
         fe = self.tt_line(ht.globals.dtype, ht.row.dtype, list(ht.key))
         it = self.ir_line(ht._tir)
         note = None
-        if it == 'ill-typed':
+        if it == 'ill-typed' and c['kind'] == 'tjoin':
+            from hail import ir
+            j = ht._tir.base_search(lambda x: isinstance(x, ir.TableJoin))[0]
+            note = ('join', [str(j.left.typ.global_type), str(j.right.typ.global_type), str(j.left.typ.row_type), str(j.right.typ.row_type)])
+        elif it == 'ill-typed':
             from hail import ir
             u = ht._tir.base_search(lambda x: isinstance(x, ir.TableUnion))[0]
             rows = [str(ch.typ.row_type) for ch in u.children]
@@ -1584,7 +1637,15 @@ class C36(Prop):
                 ri += [n for n, ty, _ in named if ty == 'i32']
             if rng.random() < 0.6:
                 lops.append(['key_rows_by', [rng.choice(ri)]])
-            rnamed = [[f'q{i}', rng.choice(['i32', 'f64', 'str']), 'row_idx'] for i in range(rng.choice([0, 1, 2]))]
+            if rng.random() < 0.5:
+                lops.append(['annotate', 'globals', [[rng.choice(['g0', 'f0', 'q0']), rng.choice(['i32', 'str']), 'g']]])
+            # right row fields: fresh names, or names of left row fields (value fields, the row key) / left globals — union_cols renames
+            lnames = [n for n, _, _ in named] + ['g0']
+            rnamed = []
+            for i in range(rng.choice([0, 1, 2, 3])):
+                n = rng.choice(lnames) if rng.random() < 0.5 else f'q{i}'
+                if n not in [x[0] for x in rnamed]:
+                    rnamed.append([n, rng.choice(['i32', 'f64', 'str']), 'row_idx'])
             rops = [['annotate', 'rows', rnamed]] if rnamed else []
             post = []
             if rng.random() < 0.5:
@@ -1654,11 +1715,51 @@ class C36(Prop):
                                         ['drop', ['idx']]]))
             if sum(1 for o in left if o == ['drop', ['idx']]) > 1:
                 left = [o for o in left if o != ['drop', ['idx']]] + [['drop', ['idx']]]
-            right = self.gen_table(rng, 'r', ['annotate', 'annotate', 'annotate_globals', 'filter', 'explode'])['ops']
+            right = self.gen_join_right(rng, left)
             return {'kind': 'tjoin', 'left': left, 'right': right}
-        left = self.gen_table(rng, 'f', ['annotate', 'annotate', 'annotate_globals', 'key_by', 'filter', 'select', 'drop'])['ops']
+        left = self.gen_table(rng, 'f', ['annotate', 'annotate', 'annotate_globals', 'annotate_globals', 'key_by', 'filter', 'select', 'drop'])['ops']
+        if rng.random() < 0.6:
+            return {'kind': 'tjoin', 'left': left, 'right': self.gen_join_right(rng, left)}
         right = self.gen_table(rng, 'r', ['annotate', 'annotate', 'annotate_globals', 'filter', 'explode'])['ops']     # stays keyed by idx: no name collisions
         return {'kind': 'tjoin', 'left': left, 'right': right}
+
+    def gen_join_right(self, rng, left_ops):
+        """a right table (keyed by idx) whose field names deliberately clash with the left table's: row field vs row field, global vs
+        global, global vs row field, row field vs global, and the name of a left key field"""
+        lrow, lglob = ['idx'], []
+        for op in left_ops:
+            if op[0] == 'annotate':
+                lrow += [n for n, _, _ in op[1]]
+            elif op[0] == 'annotate_globals':
+                lglob += [n for n, _, _ in op[1]]
+            elif op[0] == 'select':
+                lrow += [n for n, _, _ in op[2]]
+            elif op[0] == 'rename':
+                lrow += [b for _, b in op[1]]
+        row, glob, ops = {'idx'}, set(), []
+        fresh = iter(f'r{i}' for i in range(100))
+        if rng.random() < 0.25:
+            return self.gen_table(rng, 'r', ['annotate', 'annotate', 'annotate_globals', 'filter', 'explode'])['ops']      # no clash at all
+        for _ in range(rng.choice([1, 2, 2, 3, 4])):
+            if rng.random() < 0.5:
+                named = []
+                for _ in range(rng.choice([1, 2, 3])):
+                    pool = (lrow if rng.random() < 0.7 else lglob) or lrow
+                    n = rng.choice(pool) if rng.random() < 0.6 else next(fresh)
+                    if n == 'idx' or n in glob or n in [x[0] for x in named]:
+                        continue
+                    named.append([n, rng.choice(FIELD_TYPES), 'idx'])
+                if named:
+                    ops.append(['annotate', named])
+                    row |= {x[0] for x in named}
+            else:
+                pool = (lglob if rng.random() < 0.7 else lrow) or lrow
+                n = rng.choice(pool) if rng.random() < 0.65 else next(fresh)
+                if n in row or n == 'idx':
+                    continue
+                ops.append(['annotate_globals', [[n, rng.choice(FIELD_TYPES), None]]])
+                glob.add(n)
+        return ops
 
     def cases(self, rng, n, tier):
         g = ExprGen(rng)
@@ -1697,7 +1798,8 @@ class C36(Prop):
             lt, rt, pt = r[3] if r[0] == 'ok' else r[2]
             if rt is None:
                 return [f'matrix ||| {c["view"]} ||| ' + ' ; '.join(lt)] * 2
-            return [f'munion ||| {c["view"]} ||| ' + ' ; '.join(lt) + ' ||| ' + ' ; '.join(rt) + ' ||| ' + (' ; '.join(pt) or 'range')] * 2
+            tail = f' ||| {c["view"]} ||| ' + ' ; '.join(lt) + ' ||| ' + ' ; '.join(rt) + ' ||| ' + (' ; '.join(pt) or 'range')
+            return ['munion' + tail, 'munion-ir' + tail]
         if c['kind'] in ('tunion', 'tjoin'):
             r = self.run_combo(c)
             if r[0] == 'assert':
@@ -1707,7 +1809,7 @@ class C36(Prop):
             texts = r[3] if r[0] == 'ok' else r[2]
             bs = ' ||| '.join(' ; '.join(t) for t in texts)
             if c['kind'] == 'tjoin':
-                return [f'tjoin ||| {bs}'] * 2
+                return [f'tjoin-reported ||| {bs}', f'tjoin-ir ||| {bs}']
             return [f'tunion-reported ||| {int(c["unify"])} ||| {bs}', f'tunion-ir ||| {int(c["unify"])} ||| {bs}']
         r = self.run_table(c)
         if r[0] != 'ok':
@@ -1816,6 +1918,10 @@ class C36(Prop):
             if r[0] == 'rejected':
                 return None if want is None else f'the front end refuses ({r[1]}) a call the API contract types as {want}: {call}'
             _, fe, it, _, note = r
+            if it == 'ill-typed' and note[0] == 'join':
+                return (f'Table reports {fe} but the emitted TableJoin is ill-typed in the engine: its struct concatenations (left globals ++ '
+                        f'right globals, left row ++ right value fields) are fatal on a duplicate field name; children: globals {note[1][0]} / '
+                        f'{note[1][1]}, rows {note[1][2]} / {note[1][3]}: {call}')
             if it == 'ill-typed':
                 return (f'[ill-typed-union:{note[0]}] Table reports {fe} but the children of the emitted TableUnion have different row '
                         f'types {note[1]} (the engine requires them equal): {call}')
